@@ -204,6 +204,49 @@ def C12(rep, prog, tier):
         rep.only = None
 
 
+def C13(rep, prog, tier):
+    rep.explanation = ("C13: STATE.lifetime (operator attributes vs. epistemic state), ROWS.key and PAR.key (provenance of the keys "
+                       "under which per-query results are stored and read), PAR.join (typestate of worker processes), "
+                       "QUERYSLOT.def-before-use, CACHE.readonly, PREPROC.once. Scheduling and fork semantics are not decided")
+    ex = Explorer(prog, rep)
+    table = wrappers.dispatch(rep, ex, report=False)
+    wrappers.state_lifetime(rep, ex)
+    wrappers.rows(rep, ex)
+    wrappers.refuse(rep, ex, rules=("PREPROC.once",))
+    keep = {"CACHE.readonly", "QUERYSLOT.def-before-use"}
+    rep.only = keep
+    try:
+        cls = _class_of(table, ("p-entailment", None))
+        if cls:
+            pent.check(rep, ex, cls, strict=True, extended=True)
+            wrappers.cache_readonly(rep, ex, f"inference/p_entailment.py:{cls.rsplit('.', 1)[1]}._inference", ex.cache.get((f"{cls}._inference", "pent"), []))
+        cls = _class_of(table, ("system-z", None))
+        if cls:
+            site, paths = sysz.inference_entry(rep, ex, cls)
+            wrappers.cache_readonly(rep, ex, site, paths)
+        for key, name, lex in ((("system-w", False), "rc2", False), (("system-w", True), "z3", False),
+                               (("lex_inf", False), "rc2", True), (("lex_inf", True), "z3", True)):
+            cls = _class_of(table, key)
+            if cls:
+                be = mcsops.Backend(name, cls, lex=lex)
+                site, paths = mcsops.w_entry(rep, ex, be, strict=True, extended=True, prefix="LEX" if lex else "W", n_objects=2 if lex else 1)
+                wrappers.cache_readonly(rep, ex, site, paths)
+                be.discover_query_slots(ex)
+                rsite = f"{site.rsplit('.', 1)[0]}._rec_inference"
+                rpaths = ex.run(f"{cls}._rec_inference", be.rec_setup(), summaries=be.summaries(), key=f"{'lexrec' if lex else 'wrec'}-{name}", hooks=be.hooks())
+                wrappers.cache_readonly(rep, ex, rsite, rpaths)
+        cls = _class_of(table, ("c-inference", None))
+        if cls:
+            cinf.answer(rep, ex, cls)
+            wrappers.cache_readonly(rep, ex, f"inference/c_inference.py:{cls.rsplit('.', 1)[1]}._inference", ex.cache.get((f"{cls}._inference", "cinf"), []))
+            cinf.query_encoding(rep, ex, cls)
+            wrappers.cache_readonly(rep, ex, f"inference/c_inference.py:{cls.rsplit('.', 1)[1]}.compile_and_encode_query", ex.cache.get((f"{cls}.compile_and_encode_query", "caeq"), []))
+        rep.only = {"CACHE.readonly", "MCS.block"}
+        enum.block(rep, ex)
+    finally:
+        rep.only = None
+
+
 def C14(rep, prog, tier):
     rep.explanation = ("C14: CHECK.three-way (a z3 check() result reaches model() only when it is sat; `unknown` ends in a flagged "
                        "expiry) on the optimizer loops of both z3 operators, TIMEOUT.flow (no handler between the raise sites and the "
@@ -268,4 +311,4 @@ def C06(rep, prog, tier):
     wrappers.shortcut_dominance(rep, ex)
 
 
-CHECKS = {"C01": C01, "C02": C02, "C03": C03, "C04": C04, "C05": C05, "C06": C06, "C07": C07, "C09": C09, "C11": C11, "C12": C12, "C14": C14, "C15": C15}
+CHECKS = {"C01": C01, "C02": C02, "C03": C03, "C04": C04, "C05": C05, "C06": C06, "C07": C07, "C09": C09, "C11": C11, "C12": C12, "C13": C13, "C14": C14, "C15": C15}
